@@ -54,6 +54,14 @@ MemberExpression::~MemberExpression()
   _args.clear();
 }
 
+Value& MemberExpression::receiver(Context& ctx) const
+{
+  Value& val = _exp->value(ctx);
+  if (val.lvalue() && !_exp->isConst() && _exp->symbolId() == nid)
+    return ctx.allocate(val.clone());
+  return val;
+}
+
 std::string MemberExpression::unparse(Context& ctx) const
 {
   std::string sb(_exp->unparse(ctx).append(1, OPERATOR));
